@@ -1,7 +1,317 @@
-(* C13 property theorems only: each closed by `exact <lemma>` with Print Assumptions beneath. *)
-From Coq Require Import ZArith List Bool.
-Require Import MV.Lib.Base MV.C13.Defs MV.C13.Gen MV.C13.Model MV.C13.Proofs.
+(* C13 property theorems only: each closed by `exact <lemma>` with Print Assumptions beneath.
+   P, O : any point type with any point operations (the combinatorial statements do not depend on coordinates);
+   F ... : any field (Leibniz equality) in which the stated small integers are invertible. *)
+From Coq Require Import ZArith List Bool Permutation Field_theory.
+Require Import MV.C13.Proofs.
+Import ListNotations.
+Open Scope Z_scope.
 
-Theorem C13_tmp : forall A (a b : list A), Zlen (a ++ b) = (Zlen a + Zlen b)%Z.
-Proof. exact @Zlen_app. Qed.
-Print Assumptions C13_tmp.
+(* ================================================================== counts (documented deltas) *)
+Theorem C13_counts_split_edge : forall (P : Type) (O : pops P) (r : raw P) (e : Z) (r' : raw P),
+  split_edge O r e = Ok r' -> nV r' = nV r + 1 /\ nE r' = nE r + 1.
+Proof. exact @split_edge_counts. Qed.
+Print Assumptions C13_counts_split_edge.
+
+Theorem C13_counts_fan : forall (P : Type) (O : pops P) (r : raw P) (f : Z) (r' : raw P) (F : list Z),
+  getz (rf r) f = Ok F -> split_face_as_fan O r f = Ok r' ->
+  nV r' = nV r + 1 /\ nE r' = nE r + Zlen F /\ nF r' = nF r + (Zlen F - 1).
+Proof. exact @fan_counts. Qed.
+Print Assumptions C13_counts_fan.
+
+Theorem C13_counts_triangulate_face : forall (P : Type) (O : pops P) (r : raw P) (f : Z) (r' : raw P) (F : list Z),
+  getz (rf r) f = Ok F -> triangulate_face O r f = Ok r' ->
+  (Zlen F < 4 -> r' = r) /\
+  (Zlen F = 4 -> nV r' = nV r /\ nE r' = nE r + 1 /\ nF r' = nF r + 1) /\
+  (4 < Zlen F -> nV r' = nV r + 1 /\ nE r' = nE r + Zlen F /\ nF r' = nF r + (Zlen F - 1)).
+Proof. exact @triangulate_face_counts. Qed.
+Print Assumptions C13_counts_triangulate_face.
+
+Theorem C13_counts_loop : forall (P : Type) (O : pops P) (r r' : raw P),
+  loop_step O r = Ok r' -> nV r' = nV r + nE r /\ nF r' = 4 * nF r.
+Proof. exact @loop_step_counts. Qed.
+Print Assumptions C13_counts_loop.
+
+Theorem C13_counts_3quads : forall (P : Type) (O : pops P) (r r' : raw P),
+  q3_core O r = Ok r' -> nV r' = nV r + nE r + nF r /\ nE r' = 2 * nE r + 3 * nF r /\ nF r' = 3 * nF r.
+Proof. exact @q3_core_counts. Qed.
+Print Assumptions C13_counts_3quads.
+
+Theorem C13_counts_cell_fan : forall (P : Type) (O : pops P) (r : raw P) (c : Z) (r' : raw P) (cell : list Z),
+  getz (rc r) c = Ok cell -> Zlen cell = 4 -> split_cell_as_fan O r c = Ok r' ->
+  nV r' = nV r + 1 /\ nC r' = nC r + 3 /\ rf r' = rf r /\ re r' = re r.
+Proof. exact @cell_fan_counts. Qed.
+Print Assumptions C13_counts_cell_fan.
+
+Theorem C13_counts_face_centre : forall (P : Type) (O : pops P) (r : raw P) (fid : Z) (r' : raw P) (f : list Z),
+  getz (rf r) fid = Ok f -> Zlen f = 3 -> split_tet_from_face_center O r fid = Ok r' ->
+  nV r' = nV r + 1 /\ nF r' = nF r + 2 /\ nC r' = nC r + 2 * Zlen (adjacent_cells r f) /\ re r' = re r.
+Proof. exact @face_centre_counts. Qed.
+Print Assumptions C13_counts_face_centre.
+
+(* Euler characteristic V - E + F (V - E for polylines) from the counts *)
+Theorem C13_euler_split_edge : forall (P : Type) (O : pops P) (r : raw P) (e : Z) (r' : raw P),
+  split_edge O r e = Ok r' -> chi1 r' = chi1 r.
+Proof. exact @euler_split_edge. Qed.
+Print Assumptions C13_euler_split_edge.
+
+Theorem C13_euler_triangulate_face : forall (P : Type) (O : pops P) (r : raw P) (f : Z) (r' : raw P),
+  triangulate_face O r f = Ok r' -> chi2 r' = chi2 r.
+Proof. exact @euler_triangulate_face. Qed.
+Print Assumptions C13_euler_triangulate_face.
+
+Theorem C13_euler_fan : forall (P : Type) (O : pops P) (r : raw P) (f : Z) (r' : raw P),
+  split_face_as_fan O r f = Ok r' -> chi2 r' = chi2 r.
+Proof. exact @euler_fan. Qed.
+Print Assumptions C13_euler_fan.
+
+Theorem C13_euler_3quads : forall (P : Type) (O : pops P) (r r' : raw P),
+  q3_core O r = Ok r' -> chi2 r' = chi2 r.
+Proof. exact @euler_quads. Qed.
+Print Assumptions C13_euler_3quads.
+
+(* ================================================================== topology: directed-edge bookkeeping *)
+Theorem C13_topology_quad_local : forall A B C D : Z,
+  Permutation (dedges (tf_quad_replace A B C D) ++ dedges_all (tf_quad_faces A B C D))
+              (dedges [A; B; C; D] ++ [(B, D); (D, B)]).
+Proof. exact quad_local. Qed.
+Print Assumptions C13_topology_quad_local.
+
+Theorem C13_topology_loop_local : forall A B C mAB mBC mCA : Z,
+  Permutation (dedges_all (loop_tris A B C mAB mBC mCA))
+              ([(A, mAB); (mAB, B); (B, mBC); (mBC, C); (C, mCA); (mCA, A)]
+               ++ [(mAB, mBC); (mBC, mCA); (mCA, mAB)] ++ [(mBC, mAB); (mCA, mBC); (mAB, mCA)]).
+Proof. exact loop_local. Qed.
+Print Assumptions C13_topology_loop_local.
+
+Theorem C13_topology_3quads_local : forall A B C mAB mBC mCA S : Z,
+  Permutation (dedges_all (q3_quads A B C mAB mBC mCA S))
+              ([(A, mAB); (mAB, B); (B, mBC); (mBC, C); (C, mCA); (mCA, A)]
+               ++ [(mAB, S); (mBC, S); (mCA, S)] ++ [(S, mAB); (S, mBC); (S, mCA)]).
+Proof. exact q3_local. Qed.
+Print Assumptions C13_topology_3quads_local.
+
+Theorem C13_topology_fan_local : forall (f : list Z) (iV : Z),
+  2 <= Zlen f ->
+  Permutation (dedges_all (fan_replace f iV :: fan_faces f (Zlen f) iV))
+              (dedges f ++ map (fun e => (snd e, iV)) (dedges f) ++ map (fun e => (iV, fst e)) (dedges f)).
+Proof. exact fan_local. Qed.
+Print Assumptions C13_topology_fan_local.
+
+Theorem C13_topology_face_centre_local : forall A B C ic : Z,
+  Permutation (dedges (fc_replace A B C ic) ++ dedges_all (fc_faces A B C ic))
+              (dedges [A; B; C] ++ [(A, ic); (B, ic); (C, ic)] ++ [(ic, A); (ic, B); (ic, C)]).
+Proof. exact fc_local. Qed.
+Print Assumptions C13_topology_face_centre_local.
+
+Theorem C13_topology_split_edge_local : forall A B C : Z,
+  se_replace A B C :: se_append A B C = [keyify2 A C; keyify2 B C].
+Proof. exact split_edge_local. Qed.
+Print Assumptions C13_topology_split_edge_local.
+
+Theorem C13_topology_loop_global : forall (P : Type) (O : pops P) (r r' : raw P),
+  loop_step O r = Ok r' -> forall m, m = mid_of r ->
+  Permutation (dedges_all (rf r'))
+              (flat_map (hsplit m) (dedges_all (rf r)) ++ flat_map (inner m) (rf r) ++ map swap (flat_map (inner m) (rf r))).
+Proof. exact @loop_step_dedges. Qed.
+Print Assumptions C13_topology_loop_global.
+
+Theorem C13_topology_3quads_global : forall (P : Type) (O : pops P) (r r' : raw P),
+  q3_core O r = Ok r' -> forall m FS, m = q3_mid_of r -> FS = bary_ids r ->
+  Permutation (dedges_all (rf r'))
+              (flat_map (hsplit m) (dedges_all (rf r)) ++ flat_map (spokes m) FS ++ map swap (flat_map (spokes m) FS)).
+Proof. exact @q3_core_dedges. Qed.
+Print Assumptions C13_topology_3quads_global.
+
+Theorem C13_topology_loop_closed : forall (P : Type) (O : pops P) (r r' : raw P),
+  loop_step O r = Ok r' -> closed (dedges_all (rf r)) -> closed (dedges_all (rf r')).
+Proof. exact @loop_step_closed. Qed.
+Print Assumptions C13_topology_loop_closed.
+
+Theorem C13_topology_3quads_closed : forall (P : Type) (O : pops P) (r r' : raw P),
+  q3_core O r = Ok r' -> closed (dedges_all (rf r)) -> closed (dedges_all (rf r')).
+Proof. exact @q3_core_closed. Qed.
+Print Assumptions C13_topology_3quads_closed.
+
+(* one refinement of loop_subdivision preserves the half-edge criterion of an oriented manifold *)
+Theorem C13_topology_loop_manifold : forall (P : Type) (O : pops P) (r r' : raw P),
+  loop_step O r = Ok r' ->
+  Forall (covered (re r)) (rf r) -> oriented_tri (nV r) (rf r) -> simple_tri (rf r) ->
+  oriented_tri (nV r') (rf r').
+Proof. exact @loop_step_oriented. Qed.
+Print Assumptions C13_topology_loop_manifold.
+
+(* ================================================================== geometry over any field *)
+Theorem C13_geometry_midpoints :
+  forall (F : Type) (f0 f1 : F) (fadd fmul fsub : F -> F -> F) (fopp : F -> F) (fdiv : F -> F -> F) (finv : F -> F),
+  field_theory f0 f1 fadd fmul fsub fopp fdiv finv eq -> two F f1 fadd <> f0 ->
+  forall a b : vec F,
+  let m1 := se_mid (fieldO F f0 f1 fadd fopp fdiv) a b in
+  let m2 := loop_mid (fieldO F f0 f1 fadd fopp fdiv) a b in
+  let m3 := q3_mid (fieldO F f0 f1 fadd fopp fdiv) a b in
+  vadd F fadd m1 m1 = vadd F fadd a b /\ vadd F fadd m2 m2 = vadd F fadd a b /\ vadd F fadd m3 m3 = vadd F fadd a b.
+Proof. exact C13_midpoints. Qed.
+Print Assumptions C13_geometry_midpoints.
+
+Theorem C13_geometry_barycentres3 :
+  forall (F : Type) (f0 f1 : F) (fadd fmul fsub : F -> F -> F) (fopp : F -> F) (fdiv : F -> F -> F) (finv : F -> F),
+  field_theory f0 f1 fadd fmul fsub fopp fdiv finv eq -> three F f1 fadd <> f0 ->
+  forall a b c : vec F,
+  let g := q3_bary (fieldO F f0 f1 fadd fopp fdiv) [a; b; c] in
+  let g' := fc_bary (fieldO F f0 f1 fadd fopp fdiv) [a; b; c] in
+  let g'' := fan_bary (fieldO F f0 f1 fadd fopp fdiv) [a; b; c] 3 in
+  vadd F fadd (vadd F fadd g g) g = vadd F fadd (vadd F fadd a b) c /\ g' = g /\ g'' = g.
+Proof. exact C13_barycentres3. Qed.
+Print Assumptions C13_geometry_barycentres3.
+
+Theorem C13_geometry_barycentre4 :
+  forall (F : Type) (f0 f1 : F) (fadd fmul fsub : F -> F -> F) (fopp : F -> F) (fdiv : F -> F -> F) (finv : F -> F),
+  field_theory f0 f1 fadd fmul fsub fopp fdiv finv eq -> two F f1 fadd <> f0 ->
+  forall a b c d : vec F,
+  let g := cf_bary (fieldO F f0 f1 fadd fopp fdiv) a b c d in
+  vadd F fadd (vadd F fadd g g) (vadd F fadd g g) = vadd F fadd (vadd F fadd a b) (vadd F fadd c d).
+Proof. exact C13_barycentre4. Qed.
+Print Assumptions C13_geometry_barycentre4.
+
+Theorem C13_geometry_barycentre_n :
+  forall (F : Type) (f0 f1 : F) (fadd fmul fsub : F -> F -> F) (fopp : F -> F) (fdiv : F -> F -> F) (finv : F -> F),
+  field_theory f0 f1 fadd fmul fsub fopp fdiv finv eq ->
+  forall (ps : list (vec F)) (n : Z), fz F f0 f1 fadd fopp n <> f0 ->
+  vscale F fmul (fz F f0 f1 fadd fopp n) (fan_bary (fieldO F f0 f1 fadd fopp fdiv) ps n) = psum (fieldO F f0 f1 fadd fopp fdiv) ps.
+Proof. exact C13_barycentre_n. Qed.
+Print Assumptions C13_geometry_barycentre_n.
+
+Theorem C13_geometry_quad_split_area :
+  forall (F : Type) (f0 f1 : F) (fadd fmul fsub : F -> F -> F) (fopp : F -> F) (fdiv : F -> F -> F) (finv : F -> F),
+  field_theory f0 f1 fadd fmul fsub fopp fdiv finv eq ->
+  forall (pos : Z -> vec F) (A B C D : Z),
+  vadd F fadd (area_of F f0 fadd fmul fsub pos (tf_quad_replace A B C D))
+       (vsum F f0 fadd (map (area_of F f0 fadd fmul fsub pos) (tf_quad_faces A B C D))) =
+  area_of F f0 fadd fmul fsub pos [A; B; C; D].
+Proof. exact C13_quad_split_area. Qed.
+Print Assumptions C13_geometry_quad_split_area.
+
+Theorem C13_geometry_loop_area :
+  forall (F : Type) (f0 f1 : F) (fadd fmul fsub : F -> F -> F) (fopp : F -> F) (fdiv : F -> F -> F) (finv : F -> F),
+  field_theory f0 f1 fadd fmul fsub fopp fdiv finv eq -> two F f1 fadd <> f0 ->
+  forall (pos : Z -> vec F) (A B C mAB mBC mCA : Z),
+  pos mAB = loop_mid (fieldO F f0 f1 fadd fopp fdiv) (pos A) (pos B) ->
+  pos mBC = loop_mid (fieldO F f0 f1 fadd fopp fdiv) (pos B) (pos C) ->
+  pos mCA = loop_mid (fieldO F f0 f1 fadd fopp fdiv) (pos C) (pos A) ->
+  Forall (fun t => vscale F fmul (four F f1 fadd) (area_of F f0 fadd fmul fsub pos t) = area_of F f0 fadd fmul fsub pos [A; B; C])
+         (loop_tris A B C mAB mBC mCA).
+Proof. exact C13_loop_area. Qed.
+Print Assumptions C13_geometry_loop_area.
+
+Theorem C13_geometry_3quads_area :
+  forall (F : Type) (f0 f1 : F) (fadd fmul fsub : F -> F -> F) (fopp : F -> F) (fdiv : F -> F -> F) (finv : F -> F),
+  field_theory f0 f1 fadd fmul fsub fopp fdiv finv eq -> two F f1 fadd <> f0 -> three F f1 fadd <> f0 ->
+  forall (pos : Z -> vec F) (A B C mAB mBC mCA S : Z),
+  pos mAB = q3_mid (fieldO F f0 f1 fadd fopp fdiv) (pos A) (pos B) ->
+  pos mBC = q3_mid (fieldO F f0 f1 fadd fopp fdiv) (pos B) (pos C) ->
+  pos mCA = q3_mid (fieldO F f0 f1 fadd fopp fdiv) (pos C) (pos A) ->
+  pos S = q3_bary (fieldO F f0 f1 fadd fopp fdiv) [pos A; pos B; pos C] ->
+  Forall (fun q => vscale F fmul (three F f1 fadd) (area_of F f0 fadd fmul fsub pos q) = area_of F f0 fadd fmul fsub pos [A; B; C])
+         (q3_quads A B C mAB mBC mCA S).
+Proof. exact C13_quads_area. Qed.
+Print Assumptions C13_geometry_3quads_area.
+
+Theorem C13_geometry_fan3_area :
+  forall (F : Type) (f0 f1 : F) (fadd fmul fsub : F -> F -> F) (fopp : F -> F) (fdiv : F -> F -> F) (finv : F -> F),
+  field_theory f0 f1 fadd fmul fsub fopp fdiv finv eq -> three F f1 fadd <> f0 ->
+  forall (pos : Z -> vec F) (A B C iV : Z),
+  pos iV = fan_bary (fieldO F f0 f1 fadd fopp fdiv) [pos A; pos B; pos C] 3 ->
+  Forall (fun t => vscale F fmul (three F f1 fadd) (area_of F f0 fadd fmul fsub pos t) = area_of F f0 fadd fmul fsub pos [A; B; C])
+         (fan_replace [A; B; C] iV :: fan_faces [A; B; C] 3 iV).
+Proof. exact C13_fan3_area. Qed.
+Print Assumptions C13_geometry_fan3_area.
+
+Theorem C13_geometry_fan_area_any :
+  forall (F : Type) (f0 f1 : F) (fadd fmul fsub : F -> F -> F) (fopp : F -> F) (fdiv : F -> F -> F) (finv : F -> F),
+  field_theory f0 f1 fadd fmul fsub fopp fdiv finv eq ->
+  forall (pl : list (vec F)) (g : vec F),
+  vsum F f0 fadd (map (fun ab => varea2 F f0 fadd fmul fsub [fst ab; snd ab; g]) (cyc pl)) = varea2 F f0 fadd fmul fsub pl.
+Proof. exact C13_fan_area_any. Qed.
+Print Assumptions C13_geometry_fan_area_any.
+
+Theorem C13_geometry_cell_fan_volume :
+  forall (F : Type) (f0 f1 : F) (fadd fmul fsub : F -> F -> F) (fopp : F -> F) (fdiv : F -> F -> F) (finv : F -> F),
+  field_theory f0 f1 fadd fmul fsub fopp fdiv finv eq -> two F f1 fadd <> f0 ->
+  forall (pos : Z -> vec F) (A B C D ib : Z),
+  let cells := cf_replace A B C D ib :: cf_cells A B C D ib in
+  fold_right fadd f0 (map (vol_of F f0 fadd fmul fsub pos) cells) = vol_of F f0 fadd fmul fsub pos [A; B; C; D] /\
+  (pos ib = cf_bary (fieldO F f0 f1 fadd fopp fdiv) (pos A) (pos B) (pos C) (pos D) ->
+   Forall (fun c => fmul (four F f1 fadd) (vol_of F f0 fadd fmul fsub pos c) = vol_of F f0 fadd fmul fsub pos [A; B; C; D]) cells).
+Proof. exact C13_cell_fan_volume. Qed.
+Print Assumptions C13_geometry_cell_fan_volume.
+
+Theorem C13_geometry_face_centre_volume :
+  forall (F : Type) (f0 f1 : F) (fadd fmul fsub : F -> F -> F) (fopp : F -> F) (fdiv : F -> F -> F) (finv : F -> F),
+  field_theory f0 f1 fadd fmul fsub fopp fdiv finv eq -> three F f1 fadd <> f0 ->
+  forall (pos : Z -> vec F) (v0 v1 v2 v3 ic iF : Z),
+  0 <= iF < 4 ->
+  pos ic = fc_bary (fieldO F f0 f1 fadd fopp fdiv) (map pos (remove_nth [v0; v1; v2; v3] (Z.to_nat iF))) ->
+  forall cells, fc_new_cells [v0; v1; v2; v3] (Some iF) ic = Ok cells ->
+  length cells = 3%nat /\
+  Forall (fun c => fmul (three F f1 fadd) (vol_of F f0 fadd fmul fsub pos c) = vol_of F f0 fadd fmul fsub pos [v0; v1; v2; v3]) cells.
+Proof. exact C13_face_centre_volume. Qed.
+Print Assumptions C13_geometry_face_centre_volume.
+
+(* ================================================================== acceptance of every documented input / history *)
+Theorem C13_accepts_prepared_surface : forall (P : Type) (V : list P) (F : list (list Z)),
+  input_ok (Zlen V) F -> WF (pr (prepare (mkraw V [] F []))).
+Proof. exact @prepared_input_WF. Qed.
+Print Assumptions C13_accepts_prepared_surface.
+
+Theorem C13_accepts_operation : forall (P : Type) (O : pops P) (s : sstate) (o : sop),
+  WF (cur s) -> op_valid (cur s) o -> exists s', sstep O s o = Ok s' /\ WF (cur s').
+Proof. exact @sstep_accepts. Qed.
+Print Assumptions C13_accepts_operation.
+
+Theorem C13_accepts_history : forall (P : Type) (O : pops P) (a : raw P) (ops : list sop),
+  WF a -> hist_valid O (surf_enter a) ops -> exists res, run_surface O a ops = Ok res.
+Proof. exact @run_surface_accepts. Qed.
+Print Assumptions C13_accepts_history.
+
+Theorem C13_accepts_prepared_volume : forall (P : Type) (V : list P) (C : list (list Z)),
+  Forall (cell_ok (Zlen V)) C -> WFv (pr (prepare (mkraw V [] [] C))).
+Proof. exact @prepared_volume_WFv. Qed.
+Print Assumptions C13_accepts_prepared_volume.
+
+Theorem C13_accepts_volume_history : forall (P : Type) (O : pops P) (ops : list vop) (r : raw P),
+  WFv r -> vhist_valid O r ops -> exists p, run_volume O r ops = Ok p.
+Proof. exact @volume_history_accepts. Qed.
+Print Assumptions C13_accepts_volume_history.
+
+(* ================================================================== the mesh object passed in *)
+(* full statement:  forall q a0 ops r, run_surface O a0 ops = Ok r -> input_object_ok q a0 r   -- FALSE, see the two witnesses *)
+Theorem C13_input_object_partial : forall (P : Type) (O : pops P) (a0 : raw P) (ops : list sop) (r : sresult),
+  Forall in_place_op ops -> run_surface O a0 ops = Ok r -> rebuilt (res_mesh r) = false ->
+  arg_is_result (res_mesh r) (res_arg r) /\ input_object_ok false a0 r.
+Proof. exact @input_object_partial. Qed.
+Print Assumptions C13_input_object_partial.
+
+Theorem C13_input_object_refuted :
+  match run_surface QcO (input_surface w_tri_V w_tri_F) [Loop 1] with
+  | Ok r => ~ input_object_ok false (input_surface w_tri_V w_tri_F) r
+  | Err _ => False
+  end.
+Proof. exact input_object_refuted_loop. Qed.
+Print Assumptions C13_input_object_refuted.
+
+Theorem C13_input_object_stale_refuted :
+  match run_surface QcO (input_surface w_tri_V w_tri_F) [Fan 0] with
+  | Ok r => ~ input_object_ok true (input_surface w_tri_V w_tri_F) r
+  | Err _ => False
+  end.
+Proof. exact input_object_refuted_stale. Qed.
+Print Assumptions C13_input_object_stale_refuted.
+
+(* a manifold input outside the simple ones: triangulate() makes it non-manifold *)
+Theorem C13_triangulate_nonsimple_refuted :
+  nodupb (dedges_all w_oct_F) = true /\
+  match run_surface QcO (input_surface w_oct_V w_oct_F) [Triangulate] with
+  | Ok r => nodupb (dedges_all (rf (pr (res_mesh r)))) = false
+  | Err _ => False
+  end.
+Proof. exact triangulate_nonsimple_refuted. Qed.
+Print Assumptions C13_triangulate_nonsimple_refuted.
